@@ -115,7 +115,7 @@ overflow-checks = false
         os.remove(out)
     env = dict(ENV_BASE,
                MIRDUMP_OUT=out, MIRDUMP_CRATE='corpus', MIRDUMP_STOP='|'.join(list(STOP) + list(extra_stop)),
-               RUSTFLAGS='-Zalways-encode-mir -Awarnings',
+               RUSTFLAGS='-Zalways-encode-mir -Zinline-mir=no -Awarnings',
                RUSTC_WORKSPACE_WRAPPER=mirdump_bin(),
                LD_LIBRARY_PATH=os.path.join(nightly_sysroot(), 'lib') + ':' + os.environ.get('LD_LIBRARY_PATH', ''),
                CARGO_TARGET_DIR=os.path.join(WORK, 'target', cfg))
